@@ -148,11 +148,10 @@ def mine_with_real_miner(sn, world, rng, max_tries=20000):
         quiet(mw.handle_request_scrypt_input_message, 0, start + k)
         _kind, (summary, height) = mw.send_queues[0].items[-1]
         sh = cons.construct_summary_hash(summary, height)
-        s2, h2, txs = mw.mining_args[0]
-        ev = cons.construct_pow_evidence_after_scrypt(sh, mw.coinstate, s2, h2, txs)
-        cand = Block(BlockHeader(s2, ev), txs)
-        quiet(mw.handle_scrypt_output_message, 0, sh)
-        if cand.hash() < cand.target:
+        cand, found = probe_candidate(mw, mining, 0, sh)
+        if found:
+            quiet(mw.handle_scrypt_output_message, 0, sh)
+        if found:
             sn.settle()
             if sn.cm.coinstate.current_chain_hash == head_before:
                 return None
@@ -161,6 +160,33 @@ def mine_with_real_miner(sn, world, rng, max_tries=20000):
             world.accept(rb, cand, cs=world.cs)
             return cand
     return None
+
+
+class _Found(Exception):
+    pass
+
+
+def probe_candidate(mw, mining, miner_id, summary_hash):
+    """the candidate block as the REAL found-block handler builds it for this scrypt result, without letting the handler go on:
+    the handler's Block constructor is watched; a block whose id is below its target stops the handler before it adopts it.
+    Returns (block, found?) -- block is None when the handler built none"""
+    orig = mining.Block
+    seen = []
+
+    def spy(*a, **k):
+        b = orig(*a, **k)
+        seen.append(b)
+        if b.hash() < b.target:
+            raise _Found()
+        return b
+    mining.Block = spy
+    try:
+        quiet(mw.handle_scrypt_output_message, miner_id, summary_hash)
+        return (seen[-1] if seen else None), False
+    except _Found:
+        return seen[-1], True
+    finally:
+        mining.Block = orig
 
 
 def rebuild_through_store(world, rng, tag):
